@@ -203,6 +203,42 @@ def gen_case(seed, i, mode='main'):
     return {'spec': spec, 'ops': ops, 'idhash_seed': r.getrandbits(31), 'warm': r.choice((True, True, 'together', 'together', False))}
 
 
+def gen_large_case(seed, i):
+    """A long session in a large project: several hundred modules are looked up before a module that is reached only
+    through an unchanged importer is rewritten (bounded caches, eviction and the like only show at this scale)."""
+    r = prng.rng('c09-large', seed, i)
+    n = (260, 300, 520, 1030)[i % 4] + r.randrange(0, 8)
+
+    def cls(name, tag):
+        return ['class', name, [], ['ca_' + tag], [['me_' + name, ['sa_' + tag]]]]
+    leaf = {'name': 'zqleaf', 'version': 1, 'iface': {'classes': ['K0_zqleaf'], 'funcs': [], 'insts': [], 'multis': []},
+            'items': [cls('K0_zqleaf', 'zqleaf_v1'), ['assign', 'x_zqleaf_v1', '1']]}
+    hub = {'name': 'zqhub', 'version': 1, 'iface': {'classes': ['K0_zqhub'], 'funcs': [], 'insts': [], 'multis': []},
+           'items': [['star', 'zqleaf'], ['class', 'K0_zqhub', ['K0_zqleaf'], ['ca_zqhub_v1'], []], ['assign', 'x_zqhub_v1', '1']]}
+    mods = [leaf, hub]
+    for j in range(n):
+        nm = 'zqo%04d' % j
+        mods.append({'name': nm, 'version': 1, 'iface': {'classes': [], 'funcs': [], 'insts': [], 'multis': []},
+                     'items': [['assign', 'x_%s' % nm, str(j)]]})
+    look = {'kind': 'assist', 'source': 'from zqhub import *\nK0_zqhub().\n', 'position': [2, 11], 'file': 'zqmain.py'}
+    ops = [{'op': 'request', 'req': look}]
+    order = list(range(n))
+    r.shuffle(order)
+    for j in order:
+        nm = 'zqo%04d' % j
+        ops.append({'op': 'request', 'compare': False,
+                    'req': {'kind': 'assist', 'source': 'from zqhub import *\nimport %s\n%s.\n' % (nm, nm),
+                            'position': [3, len(nm) + 1], 'file': 'zqmain.py'}})
+    leaf2 = copy.deepcopy(leaf)
+    leaf2['version'] = 2
+    leaf2['items'] = _retag(leaf2['items'], 'zqleaf_v1', 'zqleaf_v2')
+    ops.append({'op': 'rewrite', 'module': 'zqleaf', 'newmod': leaf2, 'dt_ms': r.choice((1000, 1500, 60000, -1000))})
+    ops.append({'op': 'request', 'req': look})
+    ops.append({'op': 'request', 'req': {'kind': 'location', 'source': 'from zqhub import *\nzr = K0_zqleaf\n',
+                                         'position': [2, 12], 'file': 'zqmain.py'}})
+    return {'spec': {'modules': mods}, 'ops': ops, 'idhash_seed': 0, 'warm': False}
+
+
 def chain_spec():
     """Fixed 4-module chain used by the enumerated short histories: zqa <- zqb <- zqc <- zqd, mixed edge kinds."""
     def cls(name, tag):
@@ -440,6 +476,10 @@ class History(object):
                     self.log.add('request', oi, req['kind'], 'not-compared', nio)
                     any_edit = True
                     continue
+                if op.get('compare') is False:
+                    # filler request of a long session: it only has to load its modules
+                    self.log.add('request', oi, req['kind'], 'filler', nio)
+                    continue
                 # the model: a server created now, on the same disk state
                 self.fs.hook = None
                 supp.scope.builtin_scope.__dict__.pop('names', None)
@@ -497,6 +537,9 @@ def plan(tier, seed, scale=1.0):
         units.append({'kind': 'runs', 'mode': 'main', 'seed': seed, 'first': i, 'count': min(per, n - i)})
     for i in range(0, nchain, per):
         units.append({'kind': 'runs', 'mode': 'chain', 'seed': seed, 'first': i, 'count': min(per, nchain - i)})
+    nlarge = int((4 if tier == 'quick' else 48) * scale) or 1
+    for i in range(nlarge):
+        units.append({'kind': 'runs', 'mode': 'large', 'seed': seed, 'first': i, 'count': 1})
     if nchain_quick:
         # quick: all histories of length <= 2 and a seeded sample of the longer ones
         r = prng.rng('c09-chainpick', seed)
@@ -514,6 +557,8 @@ def selftest_units(tier, seed):
 def case_of(unit, i):
     if unit['mode'] == 'chain':
         return gen_chain_case(unit['seed'], i)
+    if unit['mode'] == 'large':
+        return gen_large_case(unit['seed'], i)
     return gen_case(unit['seed'], i, unit['mode'])
 
 
